@@ -69,6 +69,8 @@ const (
 	nObj  = uni.NObjects
 	split = 8
 
+	// fingerprints of the two defects this check found (both FIXED in /repo:
+	// 1ce2955 and cbf83bd); they only tag failure messages, nothing is excused
 	fpMultiLock = "C07:marked-lock-shadows-live-lock"
 	fpExpTomb   = "C07:lock-accepted-for-expired-tombstoned-target"
 )
@@ -379,14 +381,6 @@ func (w *world) actPut() {
 		}
 		if mustLocked {
 			if w.shadowed(tk) && !errors.Is(err, apistatus.ErrObjectLocked) {
-				if w.rec.Known(fpMultiLock) {
-					w.labels["known:"+fpMultiLock] = true
-					m.putOK = err == nil
-					if err == nil {
-						w.get(tk).tombed = true
-					}
-					return
-				}
 				w.fail("(1) TOMBSTONE %s for %s accepted/mis-rejected (%s) although a live lock exists next to a force-marked one [%s]", s, tk, errClass(err), fpMultiLock)
 			}
 			if !errors.Is(err, apistatus.ErrObjectLocked) {
@@ -419,11 +413,7 @@ func (w *world) actPut() {
 	case uni.Lock:
 		if mustRemoved {
 			if err == nil && expTombEdge {
-				if w.rec.Known(fpExpTomb) {
-					w.labels["known:"+fpExpTomb] = true
-				} else {
-					w.fail("(3) LOCK %s accepted although target %s is tombstoned (and expired) [%s]", s, tk, fpExpTomb)
-				}
+				w.fail("(3) LOCK %s accepted although target %s is tombstoned (and expired) [%s]", s, tk, fpExpTomb)
 			} else if !errors.Is(err, apistatus.ErrObjectAlreadyRemoved) {
 				w.fail("(3) LOCK %s for tombstoned %s: want ObjectAlreadyRemoved, got %s", s, tk, errClass(err))
 			}
@@ -672,10 +662,6 @@ func (w *world) invariants() {
 			}
 			if live && !locked {
 				if maybe {
-					if w.rec.Known(fpMultiLock) {
-						w.labels["known:"+fpMultiLock] = true
-						continue
-					}
 					w.fail("(5) %s has a live lock (and a force-marked one) but IsLocked=false [%s]", k, fpMultiLock)
 				}
 				w.fail("(5) %s has a live lock but IsLocked=false (meta epoch %d)", k, w.metaEpoch)
@@ -685,9 +671,6 @@ func (w *world) invariants() {
 			}
 			if !live || w.exempt(k) {
 				continue
-			}
-			if maybe && ev.IsOpen("C07", fpMultiLock) {
-				continue // protection of a shadowed lock is the known class
 			}
 			m := w.objs[k]
 			ex, err := w.sh.Exists(k.addr(), false)
